@@ -21,7 +21,12 @@
      *actor.PID{Address,Id}                                   (addr, name)
      RouteFunc                                                rfn : type -> rparam -> name | panic
      RouteService.routes                                      alist F (F = representation of
-                                                              route functions, interp : F -> rfn)
+                                                              route functions, interp : F -> rfn
+                                                              what they answer, pinterp : F ->
+                                                              rule F how they run); written by
+                                                              Register only: OReg, a rule (PReg),
+                                                              another goroutine (XReg / SReg)
+     Cluster.address (InitSelf)                               s_self, read by NO decision
      ClusterServices.typeServices / workingServices           type_list / work_list (member
                                                               order, then service order)
      ClusterServices.services (name -> item; built by ranging over a Go map of types, first
@@ -566,7 +571,8 @@ Section Machine.
       (* one call per service goroutine, all in flight together; [sched] says which goroutine
          is let run from one scheduling point to the next, and where other goroutines
          Register meanwhile *)
-  | OSelf (a : Z).                      (* Cluster.InitSelf(address a, ...): which node asks *)
+  | OSelf (a id : Z) (svcs : list (list Z)).
+      (* Cluster.InitSelf(address a, node id, own services): which node asks *)
 
   (* what the model says an operation shows *)
   Inductive mout :=
@@ -609,7 +615,7 @@ Section Machine.
      CURRENT view only - never of the address of the node that asks *)
   Definition out1 (reg : Z -> option rfn) (dflt : option rfn) (v : view) (o : op) : mout :=
     match o with
-    | OReg _ _ | ODefault _ | OUpdate _ | OSelf _ => MUnit
+    | OReg _ _ | ODefault _ | OUpdate _ | OSelf _ _ _ => MUnit
     | OCalls _ _ => MCalls []          (* not a single call: see [out] *)
     | ORoute ty p => MName (route reg dflt p ty)
     | ORoutePID ty p => MPid (route_pid reg dflt v ty p)
@@ -674,7 +680,7 @@ Section Machine.
     St (fns_after (s_fns s) (s_dflt s) (s_view s) o)
        (match o with ODefault d => d | _ => s_dflt s end)
        (match o with OUpdate v => v | _ => s_view s end)
-       (match o with OSelf a => a | _ => s_self s end).
+       (match o with OSelf a _ _ => a | _ => s_self s end).
 
   Definition step (s : st) (o : op) : st * mout :=
     (next s o, out (s_fns s) (s_dflt s) (s_view s) o).
@@ -713,7 +719,7 @@ Arguments OKick {F} front.
 Arguments OWork {F} ty.
 Arguments OList {F} ty.
 Arguments OCalls {F} cs sched.
-Arguments OSelf {F} a.
+Arguments OSelf {F} a id svcs.
 Arguments init {F}.
 Arguments reg_in {F} interp tab ty.
 Arguments dflt_in {F} interp d v.
